@@ -249,6 +249,7 @@ class State:
         self.ghost: dict = {}
         self.module = None
         self.writes: list = []  # (mapkey, ref, line) recorded writes (frame checking)
+        self.lwrites: list = []  # writes summarised from cut loops (already frame-checked inside the loop)
         self.call_depth = 0
         self.ext: dict[int, dict] = {}
 
@@ -271,6 +272,7 @@ class State:
         s.ghost = dict(self.ghost)
         s.module = self.module
         s.writes = list(self.writes)
+        s.lwrites = list(self.lwrites)
         s.call_depth = self.call_depth
         s.ext = dict(self.ext)
         return s
